@@ -33,7 +33,7 @@ func (v *Verifier) leafCompsS(prefix string, t types.Type) []leafComp {
 
 func (r *funcRun) entryState() *State {
 	st := &State{declared: map[string]bool{}, heap: map[string]string{}, compSig: map[string]string{}, lazyTag: map[string]string{},
-		regs: map[string]Value{}, names: map[string]Value{}, ntypes: map[string]types.Type{}, loops: map[int]bool{}, fresh: &r.fresh, sigOf: r.v.sigOfComp}
+		regs: map[string]Value{}, names: map[string]Value{}, ntypes: map[string]types.Type{}, loops: map[int]bool{}, fresh: &r.fresh, sigOf: r.v.sigOfComp, rangeOf: r.v.rangeOfComp}
 	st.declare("alloc0", "Int")
 	st.alloc = Term{S: "alloc0", Sort: SInt}
 	st.assume(Le(IntLit(0), st.alloc))
@@ -152,6 +152,8 @@ func (r *funcRun) ret(st *State, x *ssa.Return) {
 			vars[kk] = v
 		}
 		r.emitGoal(st, "post", "="+clauseID(e, k), e.Props, e.Expr, nil, r.old, vars, e.Src)
+		// cut: later post-conditions may use the earlier ones
+		st.assume(r.evalBool(st, e.Expr, r.old, extra, e.Src))
 	}
 	// frame: components not in modifies are unchanged; components modified "at" some
 	// references are unchanged at every other reference allocated at entry
@@ -222,6 +224,20 @@ func (r *funcRun) frameFormula(sig, cur, old string, alloc Term, targets []Term,
 	conds := []Term{mk(SBool, "(<= 0 fr)"), mk(SBool, "(<= fr %s)", alloc.S)}
 	for _, t := range targets {
 		conds = append(conds, mk(SBool, "(not (= fr %s))", t.S))
+	}
+	// components of arity 2 are compared element-wise (avoids extensional array equality)
+	inner := strings.TrimSuffix(strings.TrimPrefix(sig, "(Array Int "), ")")
+	if strings.HasPrefix(inner, "(Array ") {
+		ks := "Int"
+		rest := strings.TrimPrefix(inner, "(Array ")
+		if k := strings.Index(rest, " "); k > 0 {
+			ks = rest[:k]
+		}
+		body := Imp(And(conds...), mk(SBool, "(= (select (select %s fr) fk) (select (select %s fr) fk))", cur, old))
+		if pattern {
+			return mk(SBool, "(forall ((fr Int) (fk %s)) (! %s :pattern ((select (select %s fr) fk))))", ks, body.S, cur)
+		}
+		return mk(SBool, "(forall ((fr Int) (fk %s)) %s)", ks, body.S)
 	}
 	body := Imp(And(conds...), mk(SBool, "(= (select %s fr) (select %s fr))", cur, old))
 	if pattern {
@@ -622,6 +638,7 @@ func (r *funcRun) builtin(st *State, b *ssa.Builtin, cc *ssa.CallCommon, instr s
 	case "delete":
 		m := r.term(st, cc.Args[0])
 		k := r.term(st, cc.Args[1])
+		st.seedKey(k)
 		mt := cc.Args[0].Type().Underlying().(*types.Map)
 		mi := r.v.mapInfo(mt)
 		r.locksetComp(st, mi.dom, true, instr)
@@ -829,7 +846,7 @@ func (r *funcRun) errorf(st *State, cc *ssa.CallCommon, args []Value) Value {
 		}
 		if k >= 0 {
 			if sl, ok := args[1].(Term); ok && sl.Sort == SSlice {
-				loc := r.v.elemLoc(SlArr(sl), Add(SlOff(sl), IntLit(int64(k))), tAny)
+				loc := r.v.elemLoc(SlArr(sl), At(sl, IntLit(int64(k))), tAny)
 				v := r.v.readLoc(st, nil, loc).(Term)
 				wrapped = mk(SInt, "(ite ((_ is VOther) %s) (vpay %s) 0)", v.S, v.S)
 			}
